@@ -238,3 +238,123 @@ SET_PROLOGUE = Contract(
     assumes=["extracted block: the statements of SourcedStateBackend.set before the loop over the sources; `scopes` is the "
              "block's own local (params.get_list('pool_scope')), the same list the loop steps are checked against"],
 )
+
+
+# ---------------------------------------------------------------- compare_chain: is the local copy of a state chain current?
+TCLS = "QCOW2ImageTransfer"
+
+
+def compare_seam(eng, st, recv, args, kw, node):
+    """ops.compare(cache_path, pool_path, params): arbitrary answer; the conjunction of all answers is kept in ghost state"""
+    r = fresh(BOOL, "cmp")
+    n = st.ghost.get("cmp.calls") or V(INT, z3.Const("cmp.calls0", z3.IntSort()))
+    allt = st.ghost.get("cmp.all") or V(BOOL, z3.BoolVal(True))
+    st.ghost["cmp.calls"] = V(INT, n.term + 1)
+    st.ghost["cmp.all"] = V(BOOL, z3.And(allt.term, r.term))
+    st.ghost["cmp.last"] = r
+    st.ghost["cmp.cache_path"], st.ghost["cmp.pool_path"] = args[0], args[1]
+    yield st, r
+
+
+def path_join(eng, st, recv, args, kw, node):
+    t = args[0].term
+    for a in args[1:]:
+        t = z3.Concat(t, z3.StringVal("/"), a.term)
+    yield st, V(STR, t)
+
+
+def init_cmp(eng, st, frame):
+    st.ghost["cmp.all"] = V(BOOL, z3.BoolVal(True))
+
+
+COMPARE_CHAIN = Contract(
+    target=f"{POOL}::{TCLS}.compare_chain", setup=init_cmp,
+    params={"cls": VClass(TCLS), "state": STR, "cache_dir": STR, "pool_dir": STR, "params": Ref("Params")},
+    requires=["len(state) > 0"],
+    overrides={"TransferOps.compare": compare_seam, f"{TCLS}.get_dependency": seam_handler("dependency", STR),
+               "os.path.join": path_join},
+    loops={0: {"invariants": ["ghost('cmp.all') == True"],
+               "ghost": ["cmp.all", "cmp.calls", "cmp.last", "cmp.cache_path", "cmp.pool_path", "dependency.calls",
+                         "dependency.result", "dependency.arg0", "dependency.arg1", "dependency.arg2"],
+               "kinds": {"next_state": STR, "image_name": STR, "image_params": Ref("Params"), "cache_path": STR, "pool_path": STR}},
+           1: {"invariants": ["ghost('cmp.all') == True"],
+               "ghost": ["cmp.all", "cmp.calls", "cmp.last", "cmp.cache_path", "cmp.pool_path"],
+               "kinds": {"image_name": STR, "image_params": Ref("Params"), "cache_path": STR, "pool_path": STR}}},
+    raises={"ParamNotFound": None, "KeyError": None},
+    ensures=[
+        # the chain counts as current only if every comparison made along it said "equal", and a difference ends it
+        ("current_iff_every_comparison_equal", "result == ghost('cmp.all')"),
+        ("difference_reported_at_once", "implies(not result, ghost('cmp.last') == False)"),
+    ],
+    result_kind=BOOL, frame=[], props=["C13"],
+    assumes=["TransferOps.compare and get_dependency (qemu-img info) are seams; termination of the walk along the backing "
+             "chain is not decided (it ends when a state has no backing file)"],
+)
+
+
+# ---------------------------------------------------------------- transfer_chain: direction of the transfers along a chain
+CHAIN_GHOST = ["download.calls", "download.arg0", "download.arg1", "download.arg2", "upload.calls", "upload.arg0", "upload.arg1",
+               "upload.arg2", "dependency.calls", "dependency.result", "dependency.arg0", "dependency.arg1", "dependency.arg2"]
+TRANSFER_CHAIN = Contract(
+    target=f"{POOL}::{TCLS}.transfer_chain",
+    params={"cls": VClass(TCLS), "state": STR, "cache_dir": STR, "pool_dir": STR, "params": Ref("Params"), "down": BOOL},
+    requires=["len(state) > 0"],
+    overrides={"TransferOps.download": seam_handler("download", None), "TransferOps.upload": seam_handler("upload", None),
+               f"{TCLS}.get_dependency": seam_handler("dependency", STR), "os.path.join": path_join},
+    loops={0: {"invariants": ["implies(down, ghost('upload.calls') == old(ghost('upload.calls')))",
+                              "implies(not down, ghost('download.calls') == old(ghost('download.calls')))"],
+               "ghost": CHAIN_GHOST,
+               "kinds": {"next_state": STR, "image_name": STR, "image_params": Ref("Params"), "cache_path": STR, "pool_path": STR}},
+           1: {"invariants": ["implies(down, ghost('upload.calls') == old(ghost('upload.calls')))",
+                              "implies(not down, ghost('download.calls') == old(ghost('download.calls')))"],
+               "ghost": CHAIN_GHOST,
+               "kinds": {"image_name": STR, "image_params": Ref("Params"), "cache_path": STR, "pool_path": STR}}},
+    raises={"ParamNotFound": None, "KeyError": None},
+    ensures=[
+        ("fetching_never_uploads", "implies(down, ghost('upload.calls') == old(ghost('upload.calls')))"),
+        ("saving_never_downloads", "implies(not down, ghost('download.calls') == old(ghost('download.calls')))"),
+    ],
+    frame=[], props=["C13", "C14"],
+    assumes=["TransferOps.download / upload and get_dependency are seams; termination of the walk along the chain not decided"],
+)
+
+
+# ---------------------------------------------------------------- transport get / set / unset: direction and location
+def chain_seam(eng, st, recv, args, kw, node):
+    inner = seam_handler("chain", None)
+    for st1, r in inner(eng, st, recv, args, kw, node):
+        st1.ghost["chain.down"] = kw.get("down", args[4] if len(args) > 4 else const(True))
+        yield st1, r
+
+
+T_PARAMS = {"cls": VClass(TCLS), "params": Ref("Params"), "object": NONE}
+T_OV = {f"{TCLS}.transfer_chain": chain_seam, "os.path.join": path_join}
+CHAIN_ARGS = ("ghost('chain.arg1', STR) == params['{do}_state'] and ghost('chain.arg2', STR) == params['swarm_pool'] and "
+              "ghost('chain.arg3', STR) == params['{do}_location'] and ghost('chain.arg4', Ref('Params')) == params")
+T_GET = Contract(
+    target=f"{POOL}::{TCLS}.get", params=T_PARAMS, overrides=T_OV, raises={"ParamNotFound": None},
+    ensures=[("downloads_the_chain_from_the_get_location", f"{once('chain')} and ghost('chain.down') == True and "
+                                                           + CHAIN_ARGS.format(do="get"))],
+    frame=[], props=["C13"])
+T_SET = Contract(
+    target=f"{POOL}::{TCLS}.set", params=T_PARAMS, overrides=T_OV, raises={"ParamNotFound": None},
+    ensures=[("uploads_the_chain_to_the_set_location", f"{once('chain')} and ghost('chain.down') == False and "
+                                                       + CHAIN_ARGS.format(do="set"))],
+    frame=[], props=["C13"])
+DEL_GHOST = ["t_delete.calls", "t_delete.arg0", "t_delete.arg1", "t_delete.arg2"]
+T_UNSET = Contract(
+    target=f"{POOL}::{TCLS}.unset", params=T_PARAMS,
+    overrides={"TransferOps.delete": seam_handler("t_delete", None), "os.path.join": path_join},
+    loops={0: {"invariants": ["ghost('t_delete.calls') == old(ghost('t_delete.calls')) + _i",
+                              "implies(_i > 0, ghost('t_delete.arg1', STR).startswith(params['unset_location'] + '/'))"],
+               "ghost": DEL_GHOST,
+               "kinds": {"image_name": STR, "image_params": Ref("Params"), "pool_path": STR}}},
+    raises={"ParamNotFound": None},
+    ensures=[
+        ("one_file_per_image_plus_memory_file", "ghost('t_delete.calls') == old(ghost('t_delete.calls')) + len(params.objects('images')) + "
+                                                "(1 if params['object_type'] in ['vms', 'nets/vms'] else 0)"),
+        ("only_below_the_unset_location", "implies(ghost('t_delete.calls') != old(ghost('t_delete.calls')), "
+                                          "ghost('t_delete.arg1', STR).startswith(params['unset_location'] + '/'))"),
+    ],
+    frame=[], props=["C13"],
+    assumes=["TransferOps.delete is a seam; only the last deleted path is recorded, the invariant carries the prefix fact"])
